@@ -146,6 +146,8 @@ class CmsDriver:
                                   lambda: f"second live sketch (width {self.w + 1}) fed the SAME hash list after add_alt({k!r},{n}) on the "
                                           f"first: check({k!r}) -> {c2} < {self.shadow_true[k]}")
                         self.feats.add("shared_hash_list_second_sketch")
+                if hs is not getattr(self, "scratch", None):
+                    hs[:] = [0] * len(hs)  # the list hashes() returned is the caller's to reuse: the sketch must not be holding on to it
             self.true[k] += n
             self.total += n
             self.ever.add(k)
